@@ -1,3 +1,262 @@
-import Babylon.Core.Proto
-/-! Line-protocol driver for property C13 (stub). -/
-def main : IO Unit := Babylon.Core.runLines (fun (s : Unit) _ => (s, "bad-op")) ()
+import Babylon.Core.Trace
+import Babylon.Coro.Futex
+import Babylon.Coro.Cancel
+import Babylon.Coro.Await
+/-! Lock-step replay driver for property C13 (coroutine futex, cancellable wrapper, awaits).
+stdin: runs `RUN <seed> mode=<mode> …` / VRT trace lines / `END`; stdout: `ok <n>` | `diverge <why>`.
+
+mode=futex: every trace line of the real code (mutex lock / unlock, slot version CAS, slot id pop /
+mint / push, plain accesses to `Node::next`, harness events) must be the next step of the
+corresponding actor of `Babylon.Coro.step`.  OS threads carry a stack of actors: a client call at the
+bottom, the coroutine frames that run inline (inplace executor, or a non-suspending wait) on top. -/
+open Babylon.Core Babylon.Coro
+
+structure FState where
+  c : Cfg
+  s : State
+  stacks : List (Nat × List Actor) := []      -- OS thread -> actors, innermost first
+  inline : List Nat := []                     -- frames that continued without suspending
+  ids : List (Nat × Nat × Nat) := []          -- (frame, slot, version) of every emplace
+  nalloc : Nat := 0
+
+def FState.stack (r : FState) (t : Nat) : List Actor :=
+  match r.stacks.find? (·.1 == t) with
+  | some (_, l) => l
+  | none => [.cl t]
+
+def FState.setStack (r : FState) (t : Nat) (l : List Actor) : FState :=
+  { r with stacks := (t, l) :: r.stacks.filter (·.1 != t) }
+
+def FState.top (r : FState) (t : Nat) : Actor := (r.stack t).head?.getD (.cl t)
+
+def isResumePc : Pc → Option Nat
+  | .oResume n => some n
+  | .aResume n _ _ _ _ => some n
+  | .cResume n => some n
+  | _ => none
+
+/-- run the silent `resume` step of actor `a` if that is its next step -/
+def fireSilent (r : FState) (a : Actor) : FState :=
+  match isResumePc (r.s.pc a) with
+  | some _ =>
+    match step r.c r.s a (0, 0) with
+    | some (s', _) => { r with s := s' }
+    | none => r
+  | none => r
+
+def nameNum (pre : String) (s : String) : Option Nat :=
+  if s.startsWith pre then (s.drop pre.length).toNat? else none
+
+def showEv (e : Ev) : String := reprStr e
+def showPc (p : Pc) : String := reprStr p
+
+/-- perform the model step of `a` and require its label to be `want` -/
+def expect (r : FState) (a : Actor) (inp : Nat × Nat) (want : Ev) : Except String FState :=
+  let r := fireSilent r a
+  match step r.c r.s a inp with
+  | none => .error s!"implementation did {showEv want} but the model actor {reprStr a} cannot step (pc {showPc (r.s.pc a)})"
+  | some (s', l) =>
+    if l = want then .ok { r with s := s' }
+    else .error s!"model expects {showEv l} (pc {showPc (r.s.pc a)}), implementation did {showEv want}"
+
+def holdsLock (r : FState) (a : Actor) : Bool :=
+  match r.s.pc a with
+  | .wLink .. | .oScan .. | .oUnlock .. | .aScan .. | .aUnlock .. | .cRemove .. => true
+  | _ => false
+
+def parseExec (s : String) : Option Nat := nameNum "e" s
+
+def allActors (r : FState) : List Actor :=
+  (r.stacks.map (fun p => Actor.cl p.1)) ++ [.cl 0]
+
+/-- after a step of frame `h` on OS thread `t`: a frame that parked leaves the thread -/
+def afterFrameStep (r : FState) (t : Nat) (a : Actor) : FState :=
+  match a with
+  | .fr h =>
+    if r.s.fpc h = .idle ∧ r.s.fr h ≠ .running then r.setStack t ((r.stack t).erase a)
+    else if r.s.fpc h = .idle ∧ r.s.fr h = .running then { r with inline := h :: r.inline }
+    else r
+  | _ => r
+
+def stepFutex (r : FState) (o : Obs) : Except String FState :=
+  let t := o.tid
+  let a := r.top t
+  match o.kind, o.args with
+  -- ------------------------------------------------------------ harness events
+  | "ev", ["spawn", h, e] =>
+    match h.toNat?, parseExec e with
+    | some h, some e =>
+      if r.s.fr h = .fresh then .ok { r with s := { r.s with fr := upd r.s.fr h .resuming, fex := upd r.s.fex h e } }
+      else .error "spawn of a frame that exists"
+    | _, _ => .error "bad spawn"
+  | "ev", [k, h, e] =>
+    if k == "start" || k == "resumed" then
+      match h.toNat?, parseExec e with
+      | some h, some e =>
+        -- a pending silent resume of some actor
+        let r := (allActors r).foldl (fun r b => match isResumePc (r.s.pc b) with
+          | some n => if (r.s.node n).h = h ∧ r.s.fr h = .suspended then fireSilent r b else r
+          | none => r) r
+        if e ≠ r.s.fex h then .error s!"frame {h} continues on executor {e}, the model binds it to {r.s.fex h}"
+        else if r.s.fr h = .resuming then
+          .ok ({ r with s := r.s.run h }.setStack t (.fr h :: (r.stack t).erase (.fr h)))
+        else if k == "resumed" ∧ r.s.fr h = .running ∧ r.inline.contains h ∧ a = .fr h then
+          .ok { r with inline := r.inline.erase h }
+        else .error s!"frame {h} continues but the model has it {reprStr (r.s.fr h)} with no resume pending"
+      | _, _ => .error "bad event"
+    else if k == "token" then .ok r
+    else if k == "ret" then
+      -- ret <call> <value>
+      let r := fireSilent r (.cl t)
+      match e.toNat? with
+      | some v =>
+        if r.s.cpc t = .idle ∧ r.s.res t = v then .ok r
+        else .error s!"{h} returned {v}; model: pc {showPc (r.s.cpc t)} result {r.s.res t}"
+      | none => .error "bad ret"
+    else if k == "call" then
+      match e.toNat? with
+      | some f =>
+        if a ≠ .cl t ∨ r.s.cpc t ≠ .idle then .error "call while the client is not idle"
+        else if h == "wake_one" then .ok { r with s := r.s.setPc (.cl t) (.oLock f) }
+        else if h == "wake_all" then .ok { r with s := r.s.setPc (.cl t) (.aLock f) }
+        else .error "unknown call"
+      | none => .error "bad call"
+    else .ok r
+  | "ev", ["wait", h, f, v] =>
+    match h.toNat?, f.toNat?, v.toNat? with
+    | some h, some f, some v =>
+      if a = .fr h ∧ r.s.fr h = .running ∧ r.s.fpc h = .idle ∧ ¬ r.inline.contains h then
+        .ok { r with s := { r.s with fr := upd r.s.fr h .suspended, fpc := upd r.s.fpc h (.wAlloc f v) } }
+      else .error s!"frame {h} waits but the model has it {reprStr (r.s.fr h)} / {showPc (r.s.fpc h)} (running on this thread: {reprStr a})"
+    | _, _, _ => .error "bad wait"
+  | "ev", ["token", _, _, _] => .ok r
+  | "ev", ["done", h] =>
+    match h.toNat? with
+    | some h =>
+      if a = .fr h ∧ r.s.fr h = .running ∧ r.s.fpc h = .idle ∧ ¬ r.inline.contains h then
+        .ok ({ r with s := { r.s with fr := upd r.s.fr h .done } }.setStack t ((r.stack t).erase (.fr h)))
+      else .error s!"frame {h} finishes but the model has it {reprStr (r.s.fr h)}"
+    | none => .error "bad done"
+  | "ev", ["call", "cancel", n, ver] =>
+    match n.toNat?, ver.toNat? with
+    | some n, some ver =>
+      if a ≠ .cl t ∨ r.s.cpc t ≠ .idle then .error "call while the client is not idle"
+      else if (r.s.box n).ver = ver ∧ (r.s.box n).taken = false ∧ (r.s.box n).pub = false then
+        .error "client contract: cancellation token of a wait that is not linked yet"
+      else .ok { r with s := r.s.setPc (.cl t) (.cTake n ver) }
+    | _, _ => .error "bad cancel"
+  | "ev", ["call", "set", f, v] =>
+    match f.toNat?, v.toNat? with
+    | some f, some v =>
+      if a ≠ .cl t ∨ r.s.cpc t ≠ .idle then .error "call while the client is not idle"
+      else .ok { r with s := r.s.setPc (.cl t) (.sSet f v) }
+    | _, _ => .error "bad set"
+  | "ev", ["ret", "set"] =>
+    if r.s.cpc t = .idle then .ok r else .error "set returned but the model client is not idle"
+  | "ev", ["slots", "allocated", n, "minted", _] =>
+    let cnt := ((List.range 96).filter (fun i => (r.s.box i).alloc)).length
+    if some cnt == n.toNat? ∧ r.s.allocs - r.s.frees = cnt then .ok r
+    else .error s!"implementation has {n} slots allocated at the end, the model {cnt} (allocs {r.s.allocs} frees {r.s.frees})"
+  | "ev", _ => .ok r
+  -- ------------------------------------------------------------ deposit box: slot ids
+  | "casw", ["fh", so, _, e, d, ok, _] =>
+    if ok != "1" then .ok r else
+    match e.toNat?, d.toNat? with
+    | some e, some d =>
+      if so == "acqrel" then     -- pop: allocate
+        let n := e % 2 ^ 32
+        let ver := e / 2 ^ 32
+        (expect r a (n, ver) (.alloc n ver)).map (fun r => { r with ids := (a.frame, n, ver) :: r.ids })
+      else                       -- push: deallocate
+        let n := d % 2 ^ 32
+        (expect r a (0, 0) (.free n)).map (fun r => afterFrameStep r t a)
+    | _, _ => .error "bad cas"
+  | "rmw", ["add", "nv", _, old, _] =>
+    match old.toNat? with
+    | some n => (expect r a (n, 0) (.alloc n 0)).map (fun r => { r with ids := (a.frame, n, 0) :: r.ids })
+    | none => .error "bad rmw"
+  | "ld", _ => .ok r
+  | "st", [l, _, v] =>
+    match nameNum "ver" l, nameNum "val" l, v.toNat? with
+    | some n, _, some v =>
+      match r.s.pc a with
+      | .wCons _ _ n' ver' => if n = n' ∧ v = ver' then .ok r else .error s!"version store {n}@{v}, model emplace is {n'}@{ver'}"
+      | p => .error s!"version store outside emplace (pc {showPc p})"
+    | _, some f, some v => expect r a (0, 0) (.setval f v)
+    | _, _, _ => .error "unknown store"
+  | "cas", [l, _, _, e, d, ok, _] =>
+    match nameNum "ver" l, e.toNat?, d.toNat? with
+    | some n, some e, some d =>
+      if d ≠ e + 1 then .error "take does not bump the version by one" else
+      (expect r a (0, 0) (.take n e (ok == "1")))
+    | _, _, _ => .error "unknown cas"
+  -- ------------------------------------------------------------ mutex
+  | "lock", [l] =>
+    match nameNum "m" l with
+    | some f => expect r a (0, 0) (.lock f)
+    | none => .error "unknown mutex"
+  | "unlock", [l] =>
+    match nameNum "m" l with
+    | some f => (expect r a (0, 0) (.unlock f)).map (fun r => afterFrameStep r t a)
+    | none => .error "unknown mutex"
+  -- ------------------------------------------------------------ plain accesses to Node::next
+  | "pwr", [l, _] =>
+    match nameNum "nx" l with
+    | some n =>
+      match r.s.pc a with
+      | .wCons _ _ n' _ => if n = n' then expect r a (0, 0) (.cons n) else .error "construction of a foreign node"
+      | p => if holdsLock r a then .ok r else .error s!"plain write to next of node {n} outside the lock (pc {showPc p})"
+    | none => .error "unknown plain write"
+  | "prd", [l, _, v] =>
+    match nameNum "nx" l with
+    | some n =>
+      let r := fireSilent r a
+      match r.s.pc a with
+      | .aNext .. | .aRead .. =>
+        let val : Option (Option Nat) := if v == "0" then some none else (nameNum "@nd" v).map some
+        match val with
+        | some val => expect r a (0, 0) (.rdnext n val)
+        | none => .error s!"next of node {n} holds an unknown pointer {v}"
+      | p => if holdsLock r a then .ok r else .error s!"plain read of next of node {n} outside the lock (pc {showPc p})"
+    | none => .error "unknown plain read"
+  | "spawn", _ | "join", _ | "exit", _ | "race", _ | "VERDICT", _ => .ok r
+  | k, _ => .error s!"unknown trace line kind {k}"
+
+def finalFutex (r : FState) : Except String Unit :=
+  if r.s.bad then .error "model reached a state where a coroutine that is not suspended was resumed"
+  else .ok ()
+
+/-- run header -> which sub-driver -/
+inductive RState
+  | futex (r : FState)
+  | cancel (r : Babylon.Coro.Cancel.RState)
+  | await (r : Babylon.Coro.Await.RState)
+  | other
+
+def headerVal (hdr : List String) (key : String) : Option String :=
+  (hdr.filterMap (fun h => if h.startsWith (key ++ "=") then some ((h.drop (key.length + 1)).toString) else none)).head?
+
+def initR (hdr : List String) : RState :=
+  match headerVal hdr "mode" with
+  | some "futex" =>
+    let nf := (headerVal hdr "nextfirst").map (· == "1") |>.getD true
+    .futex { c := { nextFirst := nf }, s := State.init }
+  | some "cancel" => .cancel Babylon.Coro.Cancel.RState.init
+  | some "await" => .await Babylon.Coro.Await.RState.init
+  | _ => .other
+
+def stepObs (r : RState) (o : Obs) : Except String RState :=
+  match r with
+  | .futex r => (stepFutex r o).map .futex
+  | .cancel r => (Babylon.Coro.Cancel.stepObs r o).map .cancel
+  | .await r => (Babylon.Coro.Await.stepObs r o).map .await
+  | .other => .error "unknown mode"
+
+def finalR : RState → Except String Unit
+  | .futex r => finalFutex r
+  | .cancel r => Babylon.Coro.Cancel.finalR r
+  | .await r => Babylon.Coro.Await.finalR r
+  | .other => .error "unknown mode"
+
+def main : IO Unit := do
+  replayLoop (← IO.getStdin) initR stepObs finalR
